@@ -141,4 +141,27 @@ theorem xattr_key_with_equals_repaired :
       some [(ascii "user.a=b", ascii "v")] := by
   decide
 
+/-!
+6. **Old GNU sparse map, entries from 8 GiB on** (`lib/tar/src/read_sparse_map_old.c: parse`).  The end-of-list test is
+   `!isdigit(in->offset[0]) || !isdigit(in->numbytes[0])`; GNU tar stores an offset or size of 8^11 = 8 GiB and more as a
+   base-256 number (first byte 0x80), so such an entry is taken for the end of the list: the rest of the map is dropped, the
+   data of the dropped regions is skipped, the file is stored with zeros there — exit status 0.  The four map entries below are
+   bytes 386…481 of the header GNU tar 1.34 (`tar --format=gnu -S`) writes for a file with 512 bytes of data at offset 0 and 612
+   bytes at offset 8 GiB + 4096 (size 8 589 939 300).  Repair: `fixes/C04-old-sparse-base256.patch`.
+-/
+
+/-- `hdr.tail.gnu.sparse[0..3]` as written by GNU tar 1.34: (0, 512), (2^33 + 4096, 612), (2^33 + 4708, 0), unused -/
+def gnuBigSparse : Bytes :=
+  [0x30, 0x30, 0x30, 0x30, 0x30, 0x30, 0x30, 0x30, 0x30, 0x30, 0x30, 0, 0x30, 0x30, 0x30, 0x30, 0x30, 0x30, 0x30, 0x31, 0x30, 0x30, 0x30, 0,
+   0x80, 0, 0, 0, 0, 0, 0, 2, 0, 0, 0x10, 0, 0x30, 0x30, 0x30, 0x30, 0x30, 0x30, 0x30, 0x31, 0x31, 0x34, 0x34, 0,
+   0x80, 0, 0, 0, 0, 0, 0, 2, 0, 0, 0x12, 0x64, 0x30, 0x30, 0x30, 0x30, 0x30, 0x30, 0x30, 0x30, 0x30, 0x30, 0x30, 0] ++ zeros 24
+
+set_option maxRecDepth 100000 in
+/-- the unrepaired parser stops in front of the first base-256 entry and reports a complete, shorter map; the repaired one
+    reads all three entries -/
+theorem old_sparse_base256_entry_ends_map :
+    oldSparseParse false 4 gnuBigSparse [] = some ([(0, 512)], true) ∧
+    oldSparseParse true 4 gnuBigSparse [] = some ([(0, 512), (8589938688, 612), (8589939300, 0)], true) := by
+  decide
+
 end Sqfs.Witness.C04
